@@ -8,6 +8,42 @@ COMMON_TB = [
 ]
 
 CHECKS = {
+    "C05": {
+        "id": "C05",
+        "engine": "header",
+        "trusted_base": COMMON_TB + [
+            "modelled, not verified: strings as byte lists seen by the name validators as the characters U+00..U+FF (the code checks UTF-8 first and then ASCII-only classes: both reject every byte >= 0x80), Vec as list, the decoded DynamicHeader as the list of known fields (order not observable)",
+        ],
+        "level_text": "Proved in Lean for every message (type, flags, any subset of header fields, names, body, byte order, serial): marshal::marshal succeeds exactly when the type is 1-4, every name / the body signature is valid and the size limits hold, and then emits the 12 fixed bytes (endianness, type, flags, version 1, body length = size of the body, serial), the field array as exactly the generic a(yv) encoding (C02's enc) of the message's entries - SIGNATURE present iff the body is non-empty and equal to its signature, UNIX_FDS present iff descriptors are attached and equal to their number - and zero padding to 8 (marshal_conformant); the library's decoders turn header ++ body back into identical byte order, type, flags, serial, fields and body bytes for every message carrying the fields required for its type (marshal_unmarshal); Invalid type and invalid names are refused; the three flag helpers agree with the wire bits for all 3 x 256 combinations (complete table, kernel-evaluated). Tied by 5 types x all 128 subsets of the optional fields x name pools (valid/invalid, lengths stretched to every residue) x 5 body kinds incl. descriptors x flags x serials x {LE,BE}: bytes vs model, conformance re-checked with an independent field walker, decoded again by the library; flags table exhaustive; standard_messages constructors.",
+        "level_note": "Theorems are about the Lean model; the tie is differential (generated messages). Known finding: the four standard_messages constructors taking a &str panic on an argument containing NUL (they unwrap the refused push).",
+        "assumptions": ["numeric fields are in range (flags < 256, serial/body length/nfds/reply serial < 2^32): guaranteed by the Rust types"],
+    },
+    "C06": {
+        "id": "C06",
+        "engine": "header",
+        "trusted_base": COMMON_TB + [
+            "modelled, not verified: strings as byte lists seen by the name validators as the characters U+00..U+FF (the code checks UTF-8 first and then ASCII-only classes: both reject every byte >= 0x80), Vec as list, the decoded DynamicHeader as the list of known fields (order not observable)",
+        ],
+        "level_text": "Proved in Lean for ARBITRARY byte strings: the fixed part is accepted iff endianness flag known, type 1-4, version 1, serial non-zero (fixed_iff_valid); header decoding returns (fixed, fields, used) iff the bytes start with a spec-valid header whose field array is a well-formed a(yv) value (C02's enc) in which every known code has its prescribed value type and a valid value, unknown codes >= 10 carry any valid variant nested <= 64, no code 0, no known field twice, required fields present - and the returned fields are exactly the known entries in order (decode_iff_valid); unknown entries inserted anywhere do not change the decoded fields (unknown_skipped, unknown_skipped_decode); the frame length announced to the receive loop from ANY prefix >= 16 bytes of a decodable message is its total length (frame_length) and never exceeds 128 MiB. Tied by foreign headers from an independent writer (valid and invalid types, required/optional fields, wrong value types, duplicates, unknown codes incl. 0 with variants of random deep type at any position, shuffled order, wrong version, zero serial, both byte orders), every single-byte fault / truncation of the header region of pooled messages, random bytes, and the frame-size computation of a real RecvConn on announced lengths around every limit.",
+        "level_note": "Theorems are about the Lean model; the tie is differential. The field array limit (64 MiB) is enforced by the receive loop before decoding; decode_iff_valid carries it as a side condition.",
+        "assumptions": ["the header region starts at offset 0 of the message buffer (16 = 0 mod 8), as the code's sub-cursor assumes"],
+    },
+    "C16": {
+        "id": "C16",
+        "engine": "wire",
+        "trusted_base": COMMON_TB + ["modelled, not verified: generated code (derive, macro_rules) is modelled by hand from the expansion rules in rustbus_derive/src/{structs,variants}.rs and wire/variant_macros.rs; SignatureIter's unwrap is modelled as a panic result"],
+        "level_text": "All APIs denote (type, value) pairs and share one encoder model (marshalM = enc, C02) and one decoder model (dec, C03): equivalent values give identical bytes and every decoder returns what any encoder wrote (apis_encode_identically, apis_cross_decode). Proved for the generated code specifically: a derived enum decodes exactly the variants whose signature is one of its cases (first textual match) to the payload the generic variant decoder sees, and errors otherwise; a macro enum's Catchall skips exactly the value of a valid variant of a type outside its cases; has_sig of every type (basic, array, dict, tuple, DERIVED struct, variant) never panics on the signature of a well-formed single type and is true iff it is the type's own signature (shorter / longer / different structs are mismatches). Tied by 4 derived structs vs tuples vs Param trees (bytes, signature, cross decoding, x {LE,BE} x 8 offsets), 10 enum cases over derive / dbus_variant_sig! / dbus_variant_var! vs the typed variant wrapper vs the Param variant, variants of every catalogue type outside the enums' cases placed in the middle of a body (error without moving the parser / Catchall with the following values intact), has_sig of all 326 catalogue types and the derived structs against pools of valid signatures.",
+        "level_note": "That the Rust expansion of the macros equals the hand-written model is differential. Derived types count no nesting levels of their own (see C03 note).",
+        "assumptions": ["enum cases have valid, pairwise different signatures"],
+    },
+    "C17": {
+        "id": "C17",
+        "engine": "auth",
+        "trusted_base": COMMON_TB + ["modelled, not verified: Path::exists (an input predicate), UnixAddr::new / new_abstract (no NUL, shorter than 108 bytes), each stream.read result (a script event: chunk / eof / error), write_all (succeeds or fails atomically), env::var"],
+        "level_text": "Proved in Lean: the address parser's result is characterised completely against a declarative relation for EVERY string (first path= / abstract= key of a unix: address wins, any other keys in any order are skipped, every other string is an error, never a panic); get_uid_as_hex is the hex encoding of the ASCII decimal digits for every uid; over EVERY finite server script (every chunking, every reply class, eof or error at any point, arbitrary bytes), every uid and both fd settings the client writes a prefix of NUL, AUTH EXTERNAL <hex>, [NEGOTIATE_UNIX_FD], BEGIN, each only after the previous reply line was accepted; success only on OK / AGREE_UNIX_FD; never BEGIN after a rejection; the handshake performs at most script.length + 1 reads and never panics; nothing is read after the last reply line, so a server that sends one line per command leaves all message bytes unread; the outcome is independent of the chunking when each reply's CRLF ends a read. Tied by forked children running connect_to_bus under 20 boundary uids and random uids, ~10^4 grammar-generated and mutated addresses through get_session_bus_path under a controlled environment with an independent oracle, and several hundred scripted handshakes (36 + 15 reply classes, close after every k bytes, all chunkings of short lines, long lines, pipelined replies, resets) with a watchdog; BEGIN-after-reject, CRLF, ordering, success-only-on-OK and 'message right after BEGIN received intact' are checked directly.",
+        "level_note": "A server that neither answers nor closes blocks the client forever (no timeout exists in auth.rs): outside the property and the theorems. Observed behaviour outside the property: bytes behind a reply's CRLF in the same read are dropped, so a server that pipelines two replies makes the client wait for a reply it discarded.",
+        "assumptions": ["the kernel may coalesce the server's chunks; the model is insensitive to that for the scripts the engine uses", "the forked-uid phase needs root (the sandbox runs as root)"],
+    },
     "C15": {
         "id": "C15",
         "engine": "wire",
@@ -114,6 +150,10 @@ ENGINES = [
      "kind_free_text": "Rust harness: exhaustive enumeration of short strings / all characters through the validators and parsers"},
     {"name": "wire", "path": "harness/vcore/src/eng_wire.rs", "serves_properties": [p for p in sorted(CHECKS.keys()) if CHECKS[p].get("engine") == "wire"],
      "kind_free_text": "Rust harness: typed catalogue (326 monomorphised types), random Param trees, corruption stream; model ops w.enc / w.dec / w.body"},
+    {"name": "header", "path": "harness/src/eng_hdr.rs", "serves_properties": [p for p in sorted(CHECKS.keys()) if CHECKS[p].get("engine") == "header"],
+     "kind_free_text": "Rust harness: builder messages through marshal::marshal and back; foreign headers from an independent writer, corruptions, RecvConn frame sizing"},
+    {"name": "auth", "path": "harness/src/eng_c17.rs", "serves_properties": [p for p in sorted(CHECKS.keys()) if CHECKS[p].get("engine") == "auth"],
+     "kind_free_text": "Rust harness: scripted auth servers, forked uid children, address strings under a controlled environment"},
     {"name": "conn", "path": "harness/src", "serves_properties": [p for p in sorted(CHECKS.keys()) if CHECKS[p].get("engine") == "conn"],
      "kind_free_text": "Rust harness: real DuplexConn connected through the real auth code to an in-process scripted peer"},
 ]
